@@ -85,7 +85,15 @@ def check_space(ctx, sp, periodic, rng, quick, stats):
             cmax = max(1.0, max(abs(v) for v in c))
             for der in (0, 1):
                 want_r = [sp.spline(c, x, der, "right") for x in xi]
-                want_l = [sp.spline(c, x, der, "left") for x in xi] if (der == 1 and sp.p == 1) else want_r
+                if der == 1 and sp.p == 1:
+                    # the derivative of a degree-1 spline jumps at breakpoints: either one-sided value is accepted there; under a
+                    # non-dyadic affine map a mapped breakpoint and its float image differ by rounding, so points within 1e-9 of a
+                    # breakpoint count as on it
+                    snap = [Fr(round(x)) if abs(x - round(x)) < Fr(1, 10 ** 9) else x for x in xi]
+                    want_r = [sp.spline(c, x, der, "right") for x in snap]
+                    want_l = [sp.spline(c, x, der, "left") for x in snap]
+                else:
+                    want_l = want_r
                 scale = (1.0 / h) ** der
                 tol = TOL * cmax * max(1.0, scale) * (10.0 if not exact_map else 1.0) * (1.0 + sp.p * der / min(1.0, h * 1.0))
                 got = {}
